@@ -8,8 +8,11 @@ import (
 	"context"
 	"errors"
 	"fmt"
+	"net/http"
+	"net/http/httptest"
 	"sort"
 	"strings"
+	"sync"
 	"time"
 
 	awsapi "github.com/aws/aws-sdk-go/aws"
@@ -24,6 +27,8 @@ import (
 	"k8s.io/apimachinery/pkg/labels"
 	"k8s.io/apimachinery/pkg/runtime/schema"
 	"k8s.io/client-go/kubernetes/fake"
+	k8sscheme "k8s.io/client-go/kubernetes/scheme"
+	"k8s.io/client-go/rest"
 	corev1 "k8s.io/client-go/kubernetes/typed/core/v1"
 	v1lister "k8s.io/client-go/listers/core/v1"
 )
@@ -544,3 +549,46 @@ func instIDOfProviderID(pid string) string {
 	}
 	return ""
 }
+
+// ---------------------------------------------------------------------------------------------
+// A minimal API server for the informers that the real NewController starts (VerifNewControllerReal): empty pod and
+// node lists, watches that stay silent. The controller's listers are replaced right after construction, so nothing
+// ever reads these caches; they only have to sync.
+
+var (
+	emptyAPIOnce   sync.Once
+	emptyAPIClient rest.Interface
+)
+
+func emptyAPI() rest.Interface {
+	emptyAPIOnce.Do(func() {
+		srv := httptest.NewServer(http.HandlerFunc(func(w http.ResponseWriter, r *http.Request) {
+			if r.URL.Query().Get("watch") == "true" || r.URL.Query().Get("watch") == "1" {
+				w.Header().Set("Content-Type", "application/json")
+				w.WriteHeader(http.StatusOK)
+				if f, ok := w.(http.Flusher); ok {
+					f.Flush()
+				}
+				<-r.Context().Done()
+				return
+			}
+			kind := "PodList"
+			if strings.Contains(r.URL.Path, "nodes") {
+				kind = "NodeList"
+			}
+			w.Header().Set("Content-Type", "application/json")
+			fmt.Fprintf(w, `{"kind":%q,"apiVersion":"v1","metadata":{"resourceVersion":"1"},"items":[]}`, kind)
+		}))
+		cfg := &rest.Config{Host: srv.URL, APIPath: "/api"}
+		cfg.GroupVersion = &v1.SchemeGroupVersion
+		cfg.NegotiatedSerializer = k8sscheme.Codecs.WithoutConversion()
+		c, err := rest.RESTClientFor(cfg)
+		if err != nil {
+			panic(err)
+		}
+		emptyAPIClient = c
+	})
+	return emptyAPIClient
+}
+
+func (c *coreSim) RESTClient() rest.Interface { return emptyAPI() }
